@@ -4,6 +4,7 @@ import (
 	"crypto/ecdsa"
 	"fmt"
 	"strconv"
+	"strings"
 
 	"mhubsim/ext"
 	"mhubsim/hub"
@@ -217,6 +218,20 @@ func (w *World) doSetKeys(in Intent) {
 	msg := &mhub2types.MsgDelegateKeys{ValidatorAddress: valAddr.String(), OrchestratorAddress: orch.Addr.String(), ExternalAddress: extAddr, EthSignature: sig, ChainId: chain}
 	meta["ext"] = extAddr
 	meta["orch"] = orch.Addr.String()
+	// admissible spellings of the same identities: bech32 is valid in all-upper case, hex in any case
+	switch in.Mut {
+	case "orch_upper":
+		msg.OrchestratorAddress = strings.ToUpper(msg.OrchestratorAddress)
+	case "val_upper":
+		msg.ValidatorAddress = strings.ToUpper(msg.ValidatorAddress)
+	case "ext_lower":
+		msg.ExternalAddress = strings.ToLower(msg.ExternalAddress)
+	case "ext_upper":
+		msg.ExternalAddress = "0x" + strings.ToUpper(msg.ExternalAddress[2:])
+	}
+	if in.Mut != "" {
+		w.St.Fault("keys_spelling_" + in.Mut)
+	}
 	meta["seq"] = strconv.FormatUint(seq, 10)
 	meta["signed_nonce"] = strconv.FormatUint(nonce, 10)
 	meta["sig_by"] = eip55(ext.KeyAddr(signKey))
